@@ -28,6 +28,10 @@ func genWire(t *rapid.T) WireCase {
 	case "put":
 		ncmd = 1
 	}
+	if (c.Op == "cas" || c.Op == "casretry" || c.Op == "put") && rapid.IntRange(0, 3).Draw(t, "lostReply") == 0 {
+		c.Drop = 1 + rapid.IntRange(0, ncmd-1).Draw(t, "drop")
+		return c
+	}
 	ns := rapid.IntRange(1, 2).Draw(t, "stalls")
 	used := map[int]bool{}
 	for i := 0; i < ns; i++ {
@@ -87,6 +91,12 @@ func TestC06RedisWire(t *testing.T) {
 			batch = append(batch, c)
 		}
 	}
+	for j := 1; j <= 4; j++ {
+		batch = append(batch, WireCase{Op: "cas", ExpMs: 700, Drop: j})
+	}
+	for j := 1; j <= 8; j++ {
+		batch = append(batch, WireCase{Op: "casretry", ExpMs: 700, Drop: j})
+	}
 	for _, lead := range []int{10, 25, 40, 55, 70} {
 		batch = append(batch, WireCase{Op: "waitprolong", OldExpMs: 150, LeadMs: lead}, WireCase{Op: "waitprolong", OldExpMs: 90, LeadMs: lead})
 	}
@@ -99,4 +109,32 @@ func TestC06RedisWire(t *testing.T) {
 		}
 		runWireBatch(rt, "TestC06RedisWire", batch)
 	})
+}
+
+// TestC02RedisLostReply: the reply of one wire command of a CasByVersion call is lost (the server applied the command, the
+// connection breaks). The call may report the connection error or succeed on its own retries, but a definite "conflict" /
+// "not exist" answer while its write is in the storage contradicts "a loser changes nothing" (C02).
+func TestC02RedisLostReply(t *testing.T) {
+	st := vstat.For("C02")
+	var batch []WireCase
+	for rep := 0; rep < vstat.Pick(2, 12); rep++ {
+		for j := 1; j <= 4; j++ {
+			batch = append(batch, WireCase{Op: "cas", ExpMs: 700 + rep, Drop: j})
+		}
+		for j := 1; j <= 8; j++ {
+			batch = append(batch, WireCase{Op: "casretry", ExpMs: 700 + rep, Drop: j})
+		}
+	}
+	infos := make([]WireInfo, len(batch))
+	viols := make([]*vstat.Violation, len(batch))
+	var wg sync.WaitGroup
+	for i := range batch {
+		wg.Add(1)
+		go func(i int) { defer wg.Done(); infos[i], viols[i] = RunWire(batch[i]) }(i)
+	}
+	wg.Wait()
+	for i, c := range batch {
+		st.Report(t, "TestC02RedisLostReply", c, viols[i])
+		st.Case(true, vstat.Hash(c), func() any { return c }, fmt.Sprintf("lost_reply:%s:cmd%d", c.Op, c.Drop-1))
+	}
 }
